@@ -29,11 +29,17 @@ def scratch_dir():
     return _SCRATCH[0]
 
 
-def generate(model_classes, out_path):
+def generate(model_classes, out_path, mod=None):
+    """mod: the model module when it has the extras (alternative mappings, custom column type)"""
     from krrood.class_diagrams.class_diagram import ClassDiagram
     from krrood.ormatic.ormatic import ORMatic
 
-    orm = ORMatic(ClassDiagram(list(model_classes)))
+    kwargs = {}
+    model_classes = list(model_classes)
+    if mod is not None:
+        model_classes += [mod.Vec, mod.Label, mod.Title]
+        kwargs = dict(alternative_mappings=[mod.VecMapping, mod.LabelMapping], type_mappings={mod.Money: mod.MoneyType})
+    orm = ORMatic(ClassDiagram(model_classes), **kwargs)
     orm.make_all_tables()
     with open(out_path, "w") as fh:
         orm.to_sqlalchemy_file(fh)
@@ -56,7 +62,11 @@ mod = importlib.import_module({model!r})
 from krrood.class_diagrams.class_diagram import ClassDiagram
 from krrood.ormatic.ormatic import ORMatic
 classes = [getattr(mod, n) for n in {names!r}]
-orm = ORMatic(ClassDiagram(classes)); orm.make_all_tables()
+kwargs = dict()
+if {extras!r}:
+    classes += [mod.Vec, mod.Label, mod.Title]
+    kwargs = dict(alternative_mappings=[mod.VecMapping, mod.LabelMapping], type_mappings={{mod.Money: mod.MoneyType}})
+orm = ORMatic(ClassDiagram(classes), **kwargs); orm.make_all_tables()
 out = {out!r}
 with open(out, "w") as fh:
     orm.to_sqlalchemy_file(fh)
@@ -75,7 +85,7 @@ class C06(Check):
         "the generated module must import, its mappers configure, create_all succeed on SQLite; then "
         "sqlalchemy.inspect of every DAO is compared with an independent reading of the model IR (one DAO per "
         "class with original_class, issubclass along the IR inheritance exactly, a column per public "
-        "scalar/enum/datetime/JSON-list field, a uselist=False relationship per reference, a uselist=True "
+        "scalar/enum/datetime/JSON-list/custom-typed field whose SQLAlchemy type fits the annotation, a uselist=False relationship per reference (also to the DAO of an alternatively mapped class), a uselist=True "
         "relationship with its own association table per collection, nothing for underscore fields). For a "
         "sixth of the cases the generation is repeated in two fresh processes with different PYTHONHASHSEED and "
         "the texts must be identical. Non-trivial: the model has inheritance and a relationship. Distinct = distinct IR."
@@ -93,7 +103,22 @@ class C06(Check):
     def strategy(self, tier, exclude):
         kw = dict(max_classes=6, grammar="orm", allow_self_collection="self_typed_collection" not in exclude,
                   require_builtin="no_builtin_field" in exclude)
-        return st.tuples(MI.model_ir(**kw), st.integers(0, 5)).map(lambda t: {"model": t[0], "determinism": t[1] == 0})
+        plain = st.tuples(MI.model_ir(**kw), st.integers(0, 5))
+        # a third of the models use a custom column type, an alternatively mapped class and a normally mapped subclass of one
+        extra = st.tuples(MI.model_ir(extras=True, **kw), st.integers(0, 5))
+        return st.one_of(plain, plain, extra).map(lambda t: {"model": t[0], "determinism": t[1] == 0})
+
+    @staticmethod
+    def column_type(kind, t, mod):
+        """SQLAlchemy type class expected for a field's column; None where the statement does not fix it"""
+        import sqlalchemy as sa
+
+        if t["k"] in ("list", "set"):
+            return sa.JSON
+        if kind == "custom":
+            return mod.MoneyType
+        return {"int": sa.Integer, "float": sa.Float, "str": sa.String, "bool": sa.Boolean, "datetime": sa.DateTime,
+                "enum": sa.Enum}.get(kind)
 
     def static_features(self, ir):
         f = set()
@@ -139,7 +164,7 @@ class C06(Check):
         gen = None
         try:
             try:
-                generate([clss[i] for i in model["order"]], gen_path)
+                generate([clss[i] for i in model["order"]], gen_path, mod if model.get("extras") else None)
             except Exception as exc:
                 return crash(exc, "ORMatic generation", classes=classes_, nontrivial=nontrivial, features=feats)
             try:
@@ -184,15 +209,20 @@ class C06(Check):
                             return bad("underscore_field_mapped", f"{names[i]}.{name} appears in the DAO")
                         continue
                     e = MI.endpoint(t)
-                    if e["k"] != "ref":
+                    if e["k"] not in ("ref", "alt", "lab"):
                         if name not in cols:
                             return bad("missing_column", f"{names[i]}.{name}: {MI.annotation(t, names)} has no column (columns: {sorted(cols)})")
+                        col_type = getattr(daos[i], name).property.columns[0].type
+                        want_type = self.column_type(e["k"], t, mod)
+                        if want_type is not None and not isinstance(col_type, want_type):
+                            return bad("wrong_column_type", f"{names[i]}.{name}: {MI.annotation(t, names)} is stored as {col_type!r}, expected {want_type.__name__}")
                         continue
                     r = relationships.get(name)
                     if r is None:
                         return bad("missing_relationship", f"{names[i]}.{name}: {MI.annotation(t, names)} has no relationship (relationships: {sorted(relationships)})")
-                    if r.mapper.class_ is not daos[e["c"]]:
-                        return bad("relationship_wrong_target", f"{names[i]}.{name} -> {r.mapper.class_.__name__}, expected {names[e['c']]}DAO")
+                    want_target = daos[e["c"]] if e["k"] == "ref" else getattr(gen, "VecMappingDAO" if e["k"] == "alt" else "LabelMappingDAO", None)
+                    if r.mapper.class_ is not want_target:
+                        return bad("relationship_wrong_target", f"{names[i]}.{name} -> {r.mapper.class_.__name__}, expected {getattr(want_target, '__name__', None)}")
                     want_list = t["k"] in ("list", "set")
                     if bool(r.uselist) != want_list:
                         return bad("relationship_wrong_cardinality", f"{names[i]}.{name}: {MI.annotation(t, names)} uselist={r.uselist}")
@@ -203,12 +233,23 @@ class C06(Check):
                         if sec in secondaries:
                             return bad("association_table_shared", f"{names[i]}.{name} and {secondaries[sec]} share {sec}")
                         secondaries[sec] = f"{names[i]}.{name}"
+            if model.get("extras"):
+                classes_.append("custom_type_and_alternative_mappings")
+                for n_, orig, base in (("VecMappingDAO", mod.Vec, None), ("LabelMappingDAO", mod.Label, None), ("TitleDAO", mod.Title, "LabelMappingDAO")):
+                    dao = getattr(gen, n_, None)
+                    if dao is None:
+                        return bad("missing_dao", f"no {n_} in the generated module")
+                    if dao.original_class() is not (orig if n_ == "TitleDAO" else getattr(mod, n_[:-3])):
+                        return bad("wrong_original_class", f"{n_}.original_class() is {dao.original_class()}")
+                    if base and not issubclass(dao, getattr(gen, base)):
+                        return bad("inheritance_not_mirrored", f"{n_} is not a subclass of {base}")
             # ---- determinism across processes / hash seeds
             if ir["determinism"]:
                 texts = []
                 for seed in ("1", "2"):
                     out = os.path.join(d, f"{gen_name}_h{seed}.py")
-                    script = GEN_SCRIPT.format(paths=[d] + repo_paths(), model=mod.__name__, names=[names[i] for i in model["order"]], out=out)
+                    script = GEN_SCRIPT.format(paths=[d] + repo_paths(), model=mod.__name__, names=[names[i] for i in model["order"]], out=out,
+                                               extras=bool(model.get("extras")))
                     p = subprocess.run([sys.executable, "-c", script], capture_output=True, text=True,
                                        env=dict(os.environ, PYTHONHASHSEED=seed), timeout=300)
                     if p.returncode != 0:
